@@ -880,6 +880,14 @@ def heavy_worker(recipe):
             work = EV.ns_ref(c["n"], c["arcs"], c["supplies"], DEFAULT_MAX_ITER, limit=10 ** 9)["work"]
     elif out is not None:
         work = {"mcf_augmentations" if kind == "mcf" else "ns_pivots": out["iterations"]}
+        if not c["bad"]:  # counts that follow from the construction once the answer is right (the port is too slow at this size)
+            fam, size = recipe["family"], recipe["size"]
+            if fam == "mcf_rev_chain":
+                work.update({"mcf_bf_sweeps": size, "mcf_path_edges": size})
+            elif fam == "mcf_fwd_chain":
+                work.update({"mcf_path_edges": size})
+            elif fam == "ns_two_chains":
+                work.update({"ns_tree_walk_steps": size, "ns_rehang_nodes": size})
     return {"kind": kind, "recipe": recipe, "bad": c["bad"], "status": out["status"] if out else "no-result",
             "impl": None if out is None else {k: (out[k] if k != "flows" else _short(out[k] or [], 6)) for k in ("status", "flows", "objective", "iterations")},
             "optimum": inst["expect_opt"], "work": work}
@@ -1687,9 +1695,9 @@ def run(ctx: Ctx):
 
     lap("proof_steps")
     big = ctx.tier == "thorough"
-    n_mcf = ctx.budget(360, 6000)
-    n_ns = ctx.budget(360, 6000)
-    n_as = ctx.budget(120, 1500)
+    n_mcf = ctx.budget(330, 6000)
+    n_ns = ctx.budget(330, 6000)
+    n_as = ctx.budget(100, 1500)
 
     corpus = load_corpus()
     for fnd in ctx.open_findings():
@@ -1843,7 +1851,7 @@ def run(ctx: Ctx):
         if not inst.get("no_model"):
             ns_terms.append(tup(cnat(c["n"]), clist(c["arcs"], c_arc), clist(c["supplies"], cz), cz(mi), c_ns_result(out)))
             ns_meta.append(c)
-        cc = certificate_case(c["n"], c["arcs"], c["supplies"], out)
+        cc = certificate_case(c["n"], c["arcs"], c["supplies"], out) if inst.get("tag") != "from-mcf" or big else None  # (its twin was certified)
         if cc:
             (opt_cases if cc[0] == "opt" else cut_cases).append((cc[1], ("ns", inst, out)))
     lap("ns_runs")
